@@ -9,8 +9,8 @@
    holds: the implementation's observations are accepted by Spec.C02_Spec
           (reference cache; popitem any present item; iteration as a set);
    known: no open finding for C02. *)
-From Boltons Require Import Lib.Prelude Lib.C02_Syntax Spec.C02_Spec Model.C02_Model
-  Model.C02_PtrModel Model.C02_PtrCache.
+From Boltons Require Import Lib.Prelude Lib.C02_Syntax Spec.C02_Spec Spec.C02_SpecImpure Model.C02_Model
+  Model.C02_Impure Model.C02_PtrModel Model.C02_PtrCache.
 
 (* on_miss of a case: a finite table with a default (the harness uses the same
    table in its recording on_miss function) *)
@@ -23,6 +23,8 @@ Record c02_case := mkCase {
   k_on_miss : option (list (K * V) * V);
   k_on_miss_ok : bool;                   (* false: on_miss=<something not callable> was passed *)
   k_ctor : option exn;                   (* observed: the exception the constructor raised, if any *)
+  k_beh : list (K * (list op1 * option exn));   (* impure on_miss: per key, the re-entrant operations it performs on the
+                                            cache and the exception it raises instead of returning; [] = pure *)
   k_init : list (K * V);                 (* values= of the constructor *)
   k_steps : list (hop * obs)             (* operation, implementation's observation after it *)
 }.
@@ -47,7 +49,36 @@ Definition c02_holds (k : c02_case) : bool :=
      | Some _ => steps_none k
      end.
 
-Definition c02_verdict (k : c02_case) : verdict := (c02_agree k, c02_holds k, false).
+(* ---- histories with an on_miss that raises / re-enters the cache (Spec/C02_SpecImpure.v, Model/C02_Impure.v) --- *)
+Definition case_beh (k : c02_case) : K -> om_beh :=
+  fun key => match d_get (k_beh k) key with
+             | Some (sc, r) => mkBeh sc r
+             | None => mkBeh [] None
+             end.
+
+Definition beh_ok (k : c02_case) : bool :=
+  forallb (fun kb => forallb script_op (fst (snd kb))) (k_beh k).
+
+Definition c02_xagree (k : c02_case) : bool :=
+  option_eqb exn_eqb (ctor_outcome (k_max k) (k_on_miss_ok k)) (k_ctor k)
+  && match k_ctor k with
+     | None => xagree_check (case_cfg k) (case_beh k) (k_init k) (k_steps k)
+     | Some _ => steps_none k
+     end.
+
+Definition c02_xholds (k : c02_case) : bool :=
+  beh_ok k
+  && option_eqb exn_eqb (spec_ctor (k_max k) (k_on_miss_ok k)) (k_ctor k)
+  && match k_ctor k with
+     | None => xspec_check (case_cfg k) (case_beh k) (k_init k) (k_steps k)
+     | Some _ => steps_none k
+     end.
+
+Definition c02_verdict (k : c02_case) : verdict :=
+  match k_beh k with
+  | [] => (c02_agree k, c02_holds k, false)            (* pure on_miss: pointer-level model, all theorems *)
+  | _ => (c02_xagree k, c02_xholds k, false)           (* impure on_miss: list-level extension *)
+  end.
 
 (* what the model computes, for replay files *)
 Definition c02_explain (k : c02_case) : list obs :=
